@@ -19,43 +19,44 @@ import (
 )
 
 func TestTornJSONMutationLogStaysValidJSON(t *testing.T) {
-	dir := t.TempDir()
 	saved := tc.Mutations.Jsonstore
-	tc.Mutations.Jsonstore = dir
 	defer func() { tc.Mutations.Jsonstore = saved }()
-
 	version, data := dvid.UUID("0123456789abcdef0123456789abcdef"), dvid.UUID("fedcba9876543210fedcba9876543210")
-	if err := LogJSONMutation(version, data, []byte(`{"a":1}`)); err != nil {
-		t.Fatal(err)
-	}
-	if err := LogJSONMutation(version, data, []byte(`{"b":2}`)); err != nil {
-		t.Fatal(err)
-	}
-	fname := path.Join(dir, string(data)+"-"+string(version)+".plog")
-	fi, err := os.Stat(fname)
-	if err != nil {
-		t.Fatal(err)
-	}
-	for cut := int64(1); cut < 16 && cut < fi.Size(); cut++ {
-		// the crash: the last record is torn; the restart: the file is opened again
+	closeLogs := func() {
 		jsonLogFilesMux.Lock()
 		for k, lf := range jsonLogFiles {
 			lf.f.Close()
 			delete(jsonLogFiles, k)
 		}
 		jsonLogFilesMux.Unlock()
+	}
+	for cut := int64(1); cut < 16; cut++ {
+		dir := t.TempDir()
+		tc.Mutations.Jsonstore = dir
+		if err := LogJSONMutation(version, data, []byte(`{"a":1}`)); err != nil {
+			t.Fatal(err)
+		}
+		if err := LogJSONMutation(version, data, []byte(`{"b":2}`)); err != nil {
+			t.Fatal(err)
+		}
+		fname := path.Join(dir, string(data)+"-"+string(version)+".plog")
+		fi, err := os.Stat(fname)
+		if err != nil {
+			t.Fatal(err)
+		}
+		// the crash: the last record is torn; the restart: the file is opened again
+		closeLogs()
 		if err := os.Truncate(fname, fi.Size()-cut); err != nil {
 			t.Fatal(err)
 		}
 		var buf bytes.Buffer
-		err := StreamMutationsForVersion(&buf, version, data)
+		err = StreamMutationsForVersion(&buf, version, data)
 		var recs []map[string]int
 		if jerr := json.Unmarshal(buf.Bytes(), &recs); jerr != nil {
 			t.Errorf("last record torn by %d bytes: the mutation log reads as %q (error %v), which is not JSON: %v", cut, buf.String(), err, jerr)
-			continue
-		}
-		if len(recs) != 1 || recs[0]["a"] != 1 {
+		} else if len(recs) != 1 || recs[0]["a"] != 1 {
 			t.Errorf("last record torn by %d bytes: got %v, expected exactly the first record", cut, recs)
 		}
+		closeLogs()
 	}
 }
